@@ -258,6 +258,7 @@ class Sim(object):
         self._saved = []
         self.record_state = record_state
         self.max_planes = 200000
+        self.klog = {}
         self.state_log = []      # per tick list of per-asm state digests
         self._asm_cursor = None
 
@@ -426,6 +427,17 @@ class Sim(object):
                 raise BudgetExceeded('reactor.py:_setup_zpts')
             return orig_zpts(rx)
 
+        from dassh import region as _region_mod
+        DR = _region_mod.DASSH_Region
+        orig_update_duct = DR._update_duct
+
+        def update_duct(reg, temp):
+            # observation only: which wall conductivity each duct solve used
+            orig_update_duct(reg, temp)
+            sim.klog.setdefault(id(reg), []).append(
+                float(reg.duct.thermal_conductivity))
+
+        self._patch(DR, '_update_duct', update_duct)
         self._patch(R, '_setup_zpts', setup_zpts)
         self._patch(R, '_calculate_asm_temperatures', calc_asm)
         self._patch(R, 'axial_step', axial_step)
